@@ -100,7 +100,14 @@ func runC37(c *an.Ctx) {
 
 	// (2) bucket selection
 	for _, fn := range []*ssa.Function{update, remove, nearest} {
-		ok := false
+		n, why := 0, "no Buckets[...] access indexed by the clamped prefix length"
+		ok := true
+		var unfolds []ssa.Instruction
+		for _, k := range an.Calls(fn) {
+			if f := k.Common().StaticCallee(); f == next {
+				unfolds = append(unfolds, k)
+			}
+		}
 		for _, b := range fn.Blocks {
 			for _, in := range b.Instrs {
 				ia, isIA := in.(*ssa.IndexAddr)
@@ -110,12 +117,31 @@ func runC37(c *an.Ctx) {
 				if f := fieldOfLoad(ia.X); f == nil || f.Name() != "Buckets" {
 					continue
 				}
-				if clampedCPL(ia.Index) {
-					ok = true
+				lens, w := clampedCPL(ia.Index)
+				if w != "" {
+					// NearestPeers also walks the neighbouring buckets by loop index
+					if fn != nearest {
+						ok, why = false, c.P.Rel(ia.Pos())+": "+w
+					}
+					continue
+				}
+				n++
+				// the length the index was clamped with is the table's length at the access: no unfolding in between
+				for _, k := range unfolds {
+					if !(&an.Query{Fn: fn, Start: k}).Run().Reaches(ia) {
+						continue
+					}
+					cut := map[ssa.Instruction]bool{}
+					for _, l := range lens {
+						cut[l] = true
+					}
+					if (&an.Query{Fn: fn, Start: k, Cut: cut}).Run().Reaches(ia) {
+						ok, why = false, c.P.Rel(ia.Pos())+": the index was clamped with the number of buckets read before nextBucket() at "+c.P.Rel(k.Pos())+" changed it"
+					}
 				}
 			}
 		}
-		c.Check(ok, "siblings|"+an.FuncName(fn)+"|bucket-is-clamped-cpl", "the bucket is selected by the common-prefix length with the local id, clamped to the last bucket (the same rule in Update, Remove and NearestPeers)", c.P.Rel(fn.Pos()), "no Buckets[...] access indexed by the clamped prefix length")
+		c.Check(ok && n >= 1, "siblings|"+an.FuncName(fn)+"|bucket-is-clamped-cpl", "every bucket access selects the bucket by the common-prefix length with the local id, clamped to the current last bucket (the same rule in Update, Remove and NearestPeers)", c.P.Rel(fn.Pos()), why)
 	}
 
 	// (3) critical sections
@@ -244,33 +270,121 @@ func runC37(c *an.Ctx) {
 }
 
 // clampedCPL: idx is phi(cpl, len(rt.Buckets)-1) with cpl a CommonPrefixLen result.
-func clampedCPL(idx ssa.Value) bool {
+// clampedCPL decides whether idx is min(CommonPrefixLen(..), len(rt.Buckets)-1): a merge whose leaves are the
+// prefix length and "number of buckets minus one", the latter chosen exactly when the prefix length is not below
+// the number of buckets. It returns the loads of rt.Buckets whose length was used (for the freshness rule).
+func clampedCPL(idx ssa.Value) (lens []ssa.Instruction, why string) {
 	ph, ok := idx.(*ssa.Phi)
 	if !ok {
-		return false
+		return nil, "the index is not a clamped prefix length"
+	}
+	isCPL := func(v ssa.Value) bool {
+		if cv, isCv := v.(*ssa.Convert); isCv {
+			v = cv.X
+		}
+		k, isK := v.(*ssa.Call)
+		if !isK {
+			return false
+		}
+		f := k.Call.StaticCallee()
+		return f != nil && f.Name() == "CommonPrefixLen"
+	}
+	lenOfBuckets := func(v ssa.Value) ssa.Instruction {
+		k, isC := v.(*ssa.Call)
+		if !isC {
+			return nil
+		}
+		if bi, isB := k.Call.Value.(*ssa.Builtin); !isB || bi.Name() != "len" {
+			return nil
+		}
+		if f := fieldOfLoad(k.Call.Args[0]); f == nil || f.Name() != "Buckets" {
+			return nil
+		}
+		ld, _ := k.Call.Args[0].(*ssa.UnOp)
+		if ld == nil {
+			return nil
+		}
+		return ld
+	}
+	lastBucket := func(v ssa.Value) ssa.Instruction {
+		x, isB := v.(*ssa.BinOp)
+		if !isB || x.Op != token.SUB {
+			return nil
+		}
+		if k, isK := x.Y.(*ssa.Const); !isK || k.Int64() != 1 {
+			return nil
+		}
+		return lenOfBuckets(x.X)
 	}
 	cpl, clamp := false, false
-	for _, e := range ph.Edges {
-		switch x := e.(type) {
-		case *ssa.Call:
-			if f := x.Call.StaticCallee(); f != nil && f.Name() == "CommonPrefixLen" {
+	seen := map[*ssa.Phi]bool{}
+	var walk func(p *ssa.Phi)
+	walk = func(p *ssa.Phi) {
+		if seen[p] {
+			return
+		}
+		seen[p] = true
+		for i, e := range p.Edges {
+			switch {
+			case isCPL(e):
 				cpl = true
-			}
-		case *ssa.BinOp:
-			if x.Op == token.SUB {
-				if k, isC := x.X.(*ssa.Call); isC {
-					if bi, isB := k.Call.Value.(*ssa.Builtin); isB && bi.Name() == "len" {
-						clamp = true
+			case lastBucket(e) != nil:
+				clamp = true
+				lens = append(lens, lastBucket(e))
+				// the clamp is taken exactly when cpl >= len(Buckets): simple diamond only
+				pred := p.Block().Preds[i]
+				if len(pred.Preds) == 1 {
+					if iff, isIf := pred.Preds[0].Instrs[len(pred.Preds[0].Instrs)-1].(*ssa.If); isIf {
+						if cmp, isCmp := iff.Cond.(*ssa.BinOp); isCmp {
+							onTrue := pred.Preds[0].Succs[0] == pred
+							var want token.Token
+							switch {
+							case isCPL(cmp.X) && lenOfBuckets(cmp.Y) != nil:
+								want = token.GEQ
+								if !onTrue {
+									want = token.LSS
+								}
+							case lenOfBuckets(cmp.X) != nil && isCPL(cmp.Y):
+								want = token.LEQ
+								if !onTrue {
+									want = token.GTR
+								}
+							case isCPL(cmp.X) && lastBucket(cmp.Y) != nil:
+								want = token.GTR
+								if !onTrue {
+									want = token.LEQ
+								}
+							default:
+								continue
+							}
+							// the comparison reads the number of buckets too: either read makes the index current
+							for _, o := range []ssa.Value{cmp.X, cmp.Y} {
+								if l := lenOfBuckets(o); l != nil {
+									lens = append(lens, l)
+								} else if l := lastBucket(o); l != nil {
+									lens = append(lens, l)
+								}
+							}
+							if cmp.Op != want {
+								why = "the last bucket is chosen under the condition '" + cmp.Op.String() + "', not exactly when the prefix length reaches the number of buckets"
+							}
+						}
 					}
 				}
-			}
-		case *ssa.Phi:
-			if clampedCPL(x) {
-				cpl, clamp = true, true
+			default:
+				if q, isPhi := e.(*ssa.Phi); isPhi {
+					walk(q)
+				} else {
+					why = "the index can be a value that is neither the prefix length nor the last bucket"
+				}
 			}
 		}
 	}
-	return cpl && clamp
+	walk(ph)
+	if why == "" && !(cpl && clamp) {
+		why = "the index is not the prefix length clamped to the last bucket"
+	}
+	return lens, why
 }
 
 func fieldOfLoadAddr(v ssa.Value) string {
